@@ -411,11 +411,69 @@ def run_items(items, name, jobs=16):
     return dis, nontriv, dist
 
 
+def late_horizon_worker(cfg):
+    """the horizon is a variable (of the stage, or of the master for a sub-stage); its guess is changed after a
+    transcription: the starting point must be that of a freshly written OCP with the final guesses (node times of
+    localized / free grids, time-dependent state guesses)"""
+    from ..common import setup_rockit_path
+    rockit = setup_rockit_path()
+    import io, contextlib
+    import casadi as ca
+    out = {}
+    try:
+        with contextlib.redirect_stdout(io.StringIO()), contextlib.redirect_stderr(io.StringIO()):
+            def grid():
+                return {"uni_T": rockit.UniformGrid(localize_T=True), "uni_t0": rockit.UniformGrid(localize_t0=True),
+                        "geo_T": rockit.GeometricGrid(2, localize_T=True), "free": rockit.FreeGrid(), "plain": rockit.UniformGrid()}[cfg["grid"]]
+
+            def build(history):
+                if cfg["hosted"]:
+                    ocp = rockit.Ocp()
+                    Tv = ocp.variable()
+                    st = ocp.stage(t0=1, T=Tv)
+                else:
+                    ocp = rockit.Ocp(t0=1)
+                    Tv = ocp.variable()
+                    ocp.set_T(Tv)
+                    st = ocp
+                x = st.state(); u = st.control()
+                st.set_der(x, u)
+                st.add_objective(st.integral(u ** 2) + st.at_tf(x) ** 2)
+                ocp.subject_to(Tv >= 0.5)
+                M_ = rockit.MultipleShooting(N=4, grid=grid()) if cfg["method"] == "MS" else rockit.DirectCollocation(N=4, grid=grid())
+                st.method(M_)
+                ocp.solver("ipopt", {"ipopt.print_level": 0, "print_time": False})
+                st.set_initial(x, st.t)
+                if history:
+                    ocp.set_initial(Tv, 1.0)
+                    st.sample(x, grid="control")          # a query: transcribes
+                ocp.set_initial(Tv, 2.0)
+                tt, xx = st.sample(x, grid="control")
+                return [float(v) for v in np.array(ocp.initial_value(tt)).reshape(-1)], [float(v) for v in np.array(ocp.initial_value(xx)).reshape(-1)]
+            out["history"] = build(True)
+            out["fresh"] = build(False)
+    except Exception as e_:
+        out["error"] = "%s: %s" % (type(e_).__name__, str(e_)[:200])
+    return out
+
+
 def run(tier="quick", seed=0, jobs=16):
     n = 70 if tier == "quick" else 700
     items = gen_cases(seed, n, 10 if tier == "quick" else 30)
     dis, nontriv, dist = run_items(items, "C13", jobs)
-    return {"evaluations": len(items), "distinct_nontrivial": len(nontriv),
+    lcfg = [{"grid": g, "method": m, "hosted": h} for g in ("uni_T", "uni_t0", "geo_T", "free", "plain") for m in ("MS", "DC") for h in (False, True)]
+    with mp.get_context("fork").Pool(min(jobs, len(lcfg))) as pool:
+        rl = pool.map(late_horizon_worker, lcfg, chunksize=1)
+    for cfg, r in zip(lcfg, rl):
+        dist["late-horizon/%s" % cfg["grid"]] = dist.get("late-horizon/%s" % cfg["grid"], 0) + 1
+        if "error" in r:
+            dis.append({"property": "C13", "case": dict(cfg, _late=True), "points": [], "finding_key": None,
+                        "what": [{"what": "rockit raised on a horizon-variable history", "error": r["error"]}]})
+        elif not all(len(a) == len(b) and all(engine.close(x, y, scale=abs(y)) for x, y in zip(a, b)) for a, b in zip(r["history"], r["fresh"])):
+            dis.append({"property": "C13", "case": dict(cfg, _late=True), "points": [], "finding_key": None,
+                        "what": [{"what": "horizon variable guessed again after a query: the starting point (node times, time-dependent state guess) "
+                                          "differs from a freshly written OCP with the final guesses", "history (t, x)": r["history"], "fresh (t, x)": r["fresh"]}]})
+    return {"evaluations": len(items) + len(lcfg), "distinct_nontrivial": len(nontriv),
             "rule": "random OCPs x random histories (length 2..10, thorough ..30) over set_value (single and concatenated parameters), set_initial (incl. the guess of a free horizon), subject_to, "
                     "clear_constraints, add_objective, method, solver, set_T, set_t0, sample, value, jacobian, solve_limited.  "
                     "Compared: is_transcribed after every operation against the lazy-cache automaton; rows, objective, "
@@ -427,6 +485,9 @@ def run(tier="quick", seed=0, jobs=16):
 
 def replay(path):
     d = json.load(open(path))
+    if d.get("case", {}).get("_late"):
+        print(json.dumps(late_horizon_worker(d["case"]), indent=1))
+        return 1
     c = d["case"]
     dis, _, _ = run_items([(c["initial"], c["history"], c["final"], d["points"])], "C13r", 1)
     print(json.dumps(dis[:1], indent=1, default=str)[:4000] if dis else "replay: agrees")
